@@ -301,7 +301,7 @@ class Bus:
         elif len(answers) == 1:
             out = F.BackwardFrame(answers[0])
         else:
-            out = F.BackwardFrameError(0xFF)
+            out = F.BackwardFrameError(COLLISION_BYTE)
         self.log.append((desc, None if out is None else ("err" if out.error else out.as_integer)))
         return out
 
@@ -316,6 +316,7 @@ class Bus:
 # (a callable returning (generator, bus, judge)), every run_sequence() call drives that partner too - entirely before the
 # main sequence starts (switch 0), entirely after its k-th command (switch k), or command by command ("alt").  The main
 # sequence is judged by the caller as always; what the partner's judge objects to is collected in PARTNER_PROBLEMS.
+COLLISION_BYTE = 0xFF        # data byte a gateway hands over with the framing error when several units answer at once: arbitrary
 PARTNER = None
 PARTNER_SWITCH = 1
 PARTNER_PROBLEMS = []
